@@ -124,3 +124,64 @@ PROPERTIES["C18"] = {
                "thorough": {"meshes": "2401 x 4 jitters x 6 vertex orders"}},
     "deadline": {"quick": 600, "thorough": 3000},
 }
+
+
+HIST_FAMS = ["profile", "queen", "rook", "trimesh"]
+PROPERTIES["C09"] = {
+    "engine": "sse",
+    "level_text": "exhaustive enumeration of call histories on one flow_graph object (every sequence over the "
+                  "alphabet update_routes(4 fields) / set_mask(3) / set_base_levels(4) / parameter changes / "
+                  "accumulate / basins up to the depth bound, last call an update); after the last call the "
+                  "complete observable state is compared bit for bit with a fresh graph given the inputs in "
+                  "force, the argument array with its copy, and a repeated call with the first",
+    "level_note": "depth 5 (quick) / 6 (thorough); 6 grids (3x3, two 4x4 rasters, cache-less looped 3x3, "
+                  "16-node profile, 9-node mesh) x 7 routing strategies; no state merging (every history is "
+                  "replayed on a fresh object), so hidden state cannot be abstracted away",
+    "technique": "exhaustive bounded-depth enumeration of call histories on the implementation, fresh-object differential oracle",
+    "harnesses": [{"name": "hist", "families": HIST_FAMS}],
+    "rule": "states = judged histories (distinct event sequences); transitions = library calls replayed; "
+            "non-trivial = the judged update is not the first call on the object; distinct = digest of "
+            "(final observable state, mask id, base id, program)",
+    "assumptions": ["alphabet: 4 fields (two with heavy ties), 3 masks, 4 base-level sets (one with > 13 members, "
+                    "one pair congruent modulo 13), exponent {1,2}, both tree methods, both routing methods",
+                    "accumulate()/basins() before the first update_routes and updates without an unmasked base "
+                    "level are outside the documented domain (skipped, counted)"],
+    "bounds": {"quick": {"depth": "5 (4 on the cache-less grid)"}, "thorough": {"depth": "6 (5 on the cache-less grid)"}},
+    "deadline": {"quick": 600, "thorough": 3000},
+}
+PROPERTIES["C16"] = {
+    "engine": "sse",
+    "level_text": "every valid operator program of length <= 4 containing one or two snapshots, on three grid "
+                  "types, over a strided set of 3-level fields x mask / base-level deviations x two successive "
+                  "updates; each snapshot is compared bit for bit with a separate graph that runs only the prefix",
+    "level_note": "programs over {single, multi, pflood, mst kruskal-carve, mst boruvka-basic, graph snapshot, "
+                  "elevation snapshot}; fields = every 331st (quick) / 61st (thorough) of the 3^n order patterns; "
+                  "compared: receivers/counts/distances/weights, donors, both traversal orders and levels, "
+                  "accumulate(1), basins()/outlets/pits, a kernel application; mutators must throw",
+    "technique": "exhaustive program enumeration on the implementation, prefix-graph differential oracle",
+    "harnesses": [{"name": "hist", "families": ["profile", "queen", "trimesh"]}],
+    "rule": "worlds = (grid, program with snapshots, field pair, mask/base deviation); non-trivial = every judged "
+            "snapshot; distinct = digest of the expected (prefix graph) state",
+    "assumptions": ["fields are a strided subset of the 3^n patterns (the program space is exhaustive, the "
+                    "field space is not)"],
+    "bounds": {"quick": {"programs": "all valid of length <= 4 with 1-2 snapshots (522)"},
+               "thorough": {"programs": "+ combined graph+elevation snapshots; 6 grids"}},
+    "deadline": {"quick": 600, "thorough": 3000},
+}
+PROPERTIES["C20"] = {
+    "engine": "sse",
+    "level_text": "all 2800 operator programs of length <= 4 over {single, single(2 threads), multi, pflood, mst, "
+                  "graph snapshot, elevation snapshot} on profile / raster / mesh, built at run time through the "
+                  "same add_operator the public constructor uses; accept/reject and every declared effect "
+                  "compared with a 4-variable reference automaton written from the property statement",
+    "level_note": "a fixed set of 10 sequences is also built through the public variadic constructor; programs "
+                  "with a parallel router are constructed and inspected but not updated (threads belong to C10/C11)",
+    "technique": "exhaustive program enumeration on the implementation against a reference automaton",
+    "harnesses": [{"name": "hist", "families": ["profile", "queen", "trimesh"]}],
+    "rule": "worlds = (grid type, program); non-trivial = every program (acceptance and rejection both carry an "
+            "expectation); distinct = (program, grid type)",
+    "assumptions": ["operator kinds limited to the seven listed (+ combined snapshot in thorough)"],
+    "bounds": {"quick": {"programs": "7 + 7^2 + 7^3 + 7^4 = 2800, 3 grids"},
+               "thorough": {"programs": "8 + 8^2 + 8^3 + 8^4 = 4680, 6 grids"}},
+    "deadline": {"quick": 600, "thorough": 3000},
+}
